@@ -29,6 +29,7 @@ def run(ctx):
     ctx.each(r20f, ctx, repo)
     ctx.each(r20g, ctx, repo)
     ctx.each(r20i, ctx, repo)
+    ctx.each(r20j, ctx, repo)
     ctx.each(flowalg.accumulator_rule, ctx, repo, "R20h", [("model", "Population.popsize")], 2, "the population size used as aggregation weight")
 
 
@@ -523,3 +524,34 @@ def r20i(ctx, repo):
     ex = [s_ for s_ in own_nodes(vc.node) if isinstance(s_, ast.Assign) and ast.unparse(s_.targets[0]) == "expanded[stage]"]
     ok = len(ex) == 1 and ast.unparse(ex[0].value) == "framework.get_charac_includes(includes)"
     ctx.check(ok, "R20i", vc, ex[0] if ex else vc.node, "stages expanded to their compartments before comparison", "stages are not expanded to their member compartments (framework.get_charac_includes) before the nesting comparison", stmt_text="expansion")
+
+
+def r20j(ctx, repo):
+    ctx.rule("R20j", "a flow requested by name is the sum of all links of that name, annualised: in PlotData.__init__ the per-output arrays accumulated over `for link in ...` start from np.zeros in the same block, are augmented with += only, the flow total adds link.vals and is divided by dt once after the loop; compartments, characteristics and parameters are read from their own .vals")
+    fi = repo.func("plotting", "PlotData.__init__")
+    n = 0
+    for l in own_nodes(fi.node):
+        if not (isinstance(l, ast.For) and isinstance(l.target, ast.Name) and l.target.id == "link"):
+            continue
+        blk = getattr(l, "_parent", None)
+        body = None
+        for field in ("body", "orelse"):
+            b = getattr(blk, field, None)
+            if isinstance(b, list) and any(x is l for x in b):
+                body = b
+        for a in l.body:
+            if not isinstance(a, ast.AugAssign):
+                continue
+            n += 1
+            tgt = ast.unparse(a.target)
+            inits = [s_ for s_ in (body or []) if isinstance(s_, ast.Assign) and ast.unparse(s_.targets[0]) == tgt and s_.lineno < l.lineno]
+            ok = isinstance(a.op, ast.Add) and len(inits) == 1 and isinstance(inits[0].value, ast.Call) and ast.unparse(inits[0].value.func) == "np.zeros"
+            ctx.check(ok, "R20j", fi, a, "`%s` sums over the links from zero" % norm(a)[:50], "`%s` is not a sum over the links starting from np.zeros in the same block: the reported flow (or the compartment size used as weight) is not the sum of its parts" % norm(a)[:70])
+            if tgt.startswith("data_dict["):
+                ctx.check(ast.unparse(a.value) == "link.vals", "R20j", fi, a, "the flow total adds each link's values", "`%s` does not add link.vals" % norm(a))
+                after = [s_ for s_ in (body or []) if isinstance(s_, ast.AugAssign) and ast.unparse(s_.target) == tgt and s_.lineno > l.end_lineno]
+                ok = len(after) == 1 and isinstance(after[0].op, ast.Div) and ast.unparse(after[0].value) == "dt"
+                ctx.check(ok, "R20j", fi, after[0] if after else l, "flow total annualised once (divided by dt)", "the summed flow is not divided by dt exactly once after the loop over links", stmt_text="annualise-flow")
+    ctx.require(n >= 3, "R20j: fewer link accumulations in PlotData.__init__ (%d) than confirmed (3)" % n)
+    direct = [s_ for s_ in own_nodes(fi.node) if isinstance(s_, ast.Assign) and ast.unparse(s_.targets[0]) == "data_dict[output_label]" and ast.unparse(s_.value) == "vars[0].vals"]
+    ctx.check(len(direct) >= 2, "R20j", fi, direct[0] if direct else fi.node, "stocks and parameters are read from their own values", "compartments / characteristics / parameters are not reported from vars[0].vals", stmt_text="direct-vals")
